@@ -4,6 +4,7 @@ import (
 	"iter"
 	"os"
 	"strconv"
+	"sync"
 	"time"
 )
 
@@ -738,6 +739,57 @@ func (m *RWMutex) RUnlock() {
 	}
 	m.readers--
 	wakeAll(&m.waiters)
+	yieldPoint()
+}
+
+// Cond replaces sync.Cond. L is whatever the program handed to NewCond (a
+// simulated Mutex or RWMutex after rewriting).
+type Cond struct {
+	L       sync.Locker
+	waiters []*condWaiter
+}
+
+type condWaiter struct {
+	t     *task
+	woken bool
+}
+
+// NewCond replaces sync.NewCond.
+func NewCond(l sync.Locker) *Cond { return &Cond{L: l} }
+
+func (c *Cond) Wait() {
+	w := &condWaiter{t: cur}
+	c.waiters = append(c.waiters, w)
+	c.L.Unlock()
+	for !w.woken {
+		block()
+	}
+	c.L.Lock()
+}
+
+func (c *Cond) Signal() {
+	yieldPoint()
+	if len(c.waiters) > 0 {
+		// which waiter a Signal wakes is not specified: a scheduler choice
+		i := 0
+		if len(c.waiters) > 1 && step.SchedPolicy != "" && step.SchedPolicy != "run-to-block" {
+			i = schedRNG.intn(len(c.waiters))
+		}
+		w := c.waiters[i]
+		c.waiters = append(c.waiters[:i], c.waiters[i+1:]...)
+		w.woken = true
+		wake(w.t)
+	}
+	yieldPoint()
+}
+
+func (c *Cond) Broadcast() {
+	yieldPoint()
+	for _, w := range c.waiters {
+		w.woken = true
+		wake(w.t)
+	}
+	c.waiters = nil
 	yieldPoint()
 }
 
